@@ -88,9 +88,6 @@ theorem blocking_enabled_iff (steps : List MStep) :
       exact ⟨b, by rw [a]; simp⟩
   · simp only [Mrsw.readEnabled, beq_iff_eq, hw]
 
-/-- the release steps of everybody who currently holds the lock -/
-def releases (s : MSys) : List MStep := s.writers.map .endWrite ++ s.readers.map .endRead
-
 /-- number of holders: the progress measure -/
 def holders (s : MSys) : Nat := s.readers.length + s.writers.length
 
@@ -185,6 +182,29 @@ example :
     let s := rtRun {} [.subscribe 5, .subscribe 3, .signal 4, .subscribe 2, .unsubscribe 0, .signal 4]
     s.r.isClosed 1 = true ∧ s.r.isClosed 0 = false ∧ s.r.isClosed 2 = true ∧ s.r.subs = [] := by decide
 
+/-- the property's waiter clause at full strength: EVERY subscription that was made and not
+unsubscribed is woken once the index has reached its target -/
+def C34_waiters_full : Prop :=
+  ∀ steps : List RtStep, ∀ l ∈ (rtRun {} steps).ever,
+    l.target ≤ (rtRun {} steps).r.current → (rtRun {} steps).r.isClosed l.id = true
+
+/-- it holds for every history without a `Reset` (decidable exclusion) ... -/
+theorem waiters_woken_partial (steps : List RtStep) (hnr : ∀ st ∈ steps, st ≠ RtStep.reset) :
+    ∀ l ∈ (rtRun {} steps).ever,
+      ((rtRun {} steps).r.isClosed l.id = true ↔ l.target ≤ (rtRun {} steps).r.current) := by
+  intro l hl
+  rw [ever_eq_live steps {} rfl hnr] at hl
+  exact (waiter_woken_iff_target_reached steps l hl).1
+
+/-- ... and fails with one: a waiter registered before a `Reset` is never woken. The exclusion
+is justified for rqlite by `reset_only_on_closed_store` below (Reset runs only inside
+`Store.Open` on a store that is not open; the only subscriber runs on an open store). -/
+theorem waiters_woken_witness : ¬ C34_waiters_full := by
+  intro h
+  have := h [.subscribe 5, .reset, .signal 9] ⟨0, 5⟩ (by decide) (by decide)
+  revert this
+  decide
+
 /-- `Reset` drops subscribers without closing their channels: a waiter that was registered
 before a `Reset` is NOT woken when its target is reached afterwards (it is outside `live`). -/
 theorem reset_strands_waiter_witness :
@@ -203,6 +223,14 @@ theorem reset_only_on_closed_store :
     RqModel.Gen.ReadyTarget.resetOnlyAfterNotOpenGuard = true ∧
     RqModel.Gen.ReadyTarget.subscribers = ["Store.waitForLinearizableRead"] ∧
     RqModel.Gen.ReadyTarget.storeOpenCallsInRqlited = 1 := by decide
+
+/-- the release methods wake the parked acquirers: `EndRead` and `EndWrite` each contain exactly
+one `cond.Broadcast()` (the model has no Broadcast — a `Wait` loop is a guarded step — so this
+regenerated fact is what ties "the guard became true" to "the parked goroutine re-checks it") -/
+theorem releases_broadcast :
+    RqModel.LockFacts.broadcasts "internal/rsync.MultiRSW.EndRead" = some 1 ∧
+    RqModel.LockFacts.broadcasts "internal/rsync.MultiRSW.EndWrite" = some 1 ∧
+    RqModel.LockFacts.broadcasts "internal/rsync.MultiRSW.UpgradeToWriter" = some 0 := by decide
 
 /-! ### regenerated facts: each method is one critical section -/
 theorem lock_discipline :
